@@ -11,7 +11,7 @@ from pyabv.gen import corpus
 from pyabv.gen.programs import POOL_HOSTILE, POOL_KWPREFIX, POOL_SHAPE, Profile, ProgGen
 from pyabv.impl import impl
 from pyabv.props.c07 import identifier_templates, program_identifiers, size_shapes
-from pyabv.props.common import Inferred, choose_inputs, is_member, ref_parse, selection, self_check
+from pyabv.props.common import Inferred, choose_inputs, is_member, ref_parse, same_value, selection, self_check
 
 RULE = (
     "cases = (program, layout, input): generated programs (incl. nesting, chains, tuples with identifiers, hostile string "
@@ -37,6 +37,17 @@ def mech(prog, default, failure="failed"):
 
     m = mechanism(prog, default, failure)
     return m.replace("C07/", "C14/", 1) if m is not default else default
+
+
+def same_outcome(a, b):
+    """the same group - value *and type* (10 is not 10.0, True is not 1) - or the same error class"""
+    if a[0] != b[0]:
+        return False
+    if a[0] == "ok":
+        return same_value(a[1], b[1])
+    if a[0] == "exc":
+        return a[1] == b[1]
+    return a == b
 
 
 class EqAll:
@@ -149,7 +160,7 @@ def check_program(ctx, im, text, gp, ninputs, layer, prog=None):
                 a, b = im.call(rev, env), im.call(rfn, env)
                 ctx.evaluated()
                 if rprog.splitters or a[0] != "ok":
-                    same = a == b if a[0] != "exc" else (b[0] == "exc" and a[1] == b[1])
+                    same = same_outcome(a, b)
                 else:
                     same = b[0] == "ok" and is_member(rprog, b[1])
                 if not same:
@@ -166,7 +177,7 @@ def check_program(ctx, im, text, gp, ninputs, layer, prog=None):
             b = im.call(fn, env)
             ctx.evaluated()
             if prog.splitters or a[0] != "ok":
-                same = a == b if a[0] != "exc" else (b[0] == "exc" and a[1] == b[1])
+                same = same_outcome(a, b)
             else:
                 same = b[0] == "ok" and is_member(prog, b[1])
             if not same:
@@ -239,7 +250,7 @@ def generated_elsewhere(ctx, im):
                         envd = {f: rnd.choice(["US", "p", "x", 1, 2, 21, 20, 7.5, None, "u%d" % j, j]) for f in fields}
                         a, b = im.call(c[1], envd), im.call(fn, envd)
                         ctx.evaluated()
-                        same = a == b if a[0] != "exc" else (b[0] == "exc" and a[1] == b[1])
+                        same = same_outcome(a, b)
                         if not same:
                             ctx.violation("generated-source-disagrees-with-evaluator",
                                           dict(text=text, layout=layout, env=envd, evaluator=a, generated=b, layer="generated-elsewhere",
@@ -257,6 +268,14 @@ def run(ctx):
     idx = 0
     if ctx.shard == 0 or not ctx.quick():
         generated_elsewhere(ctx, im)
+    # return statements whose literals compare equal across statements but differ in type (0 / 0.0 / -0.0 / "0"): the group
+    # that comes back has the type that was written in *that* statement
+    if ctx.shard == 0 or not ctx.quick():
+        for t in ('def tw1 { splitters: u if plan == "trial" { return 0 weighted 1, 10 weighted 1 } else if plan == "x" { return 0.0 weighted 1, 10.0 weighted 1 } '
+                  'else { return "0" weighted 1, "10" weighted 1 } }',
+                  'def tw2 { splitters: u if plan == "trial" { return 1.0 weighted 1, -0.0 weighted 1, 2 weighted 2 } else { return 1 weighted 1, 0 weighted 1, 2.0 weighted 2 } }',
+                  'def tw3 { splitters: u if plan == "trial" { if f == 1 { return 7 weighted 3 } else { return 7.0 weighted 3 } } else { return 7 weighted 3 } }'):
+            check_program(ctx, im, t, None, 24, "equal-comparing-literals")
     # a float literal beyond the float range (310 digits) becomes inf; whatever the two artefacts do with it, they do the same
     if ctx.shard == 0:
         big = "1" + "0" * 309 + ".0"
